@@ -43,7 +43,7 @@ class Check(EngineCheck):
     assumptions = EngineCheck.assumptions + [
         "completions and cancellation arriving from other threads: proved for every interleaving at ITEM granularity on the concrete engine model (refinement_final_async, build_terminates_async); that instruction-level interleavings of the C++ reduce to those (shared state: finishedTaskInfos under its mutex, the completing rule's own result, the atomic buildCancelled) is an assumption about the C++ memory model (notes/REFINE.md section 9)",
         "lost wake-ups, deadlock and exactly-once hand-off are proved at LOCK GRANULARITY on a model of the two critical sections (Model/Handshake.lean) whose shape parameters are read from the source by the fingerprint extractor; data races below lock granularity (C++ memory model) are not expressible; the free-threaded harness runs exercise the real code",
-        "equality of the executed set across schedules is decided by the python oracle (same history, two schedules), not by a theorem",
+        "equality of the executed set across schedules: a theorem for successful builds of the concrete engine model (EngineImpl_sound_C06_same_executed_set, through the schedule-free reference MustRun and the in-order guards evOkX, which are also enforced on every real trace); on the real engine additionally the python oracle (same history, two schedules); the executed set of a cancelled / failed build does depend on the schedule and is not compared",
         "refinement_final: hypotheses RulesOk (request kinds <= 2, ids <= kMaximumInputID, ids distinct within a rule) and histOk (no build emits the concrete model's FUEL/BAD markers), which refinement_final_sized replaces by the computable size condition histSized (workBound + 2 < scanFuel at every build; build_terminates); the concrete model does not cover injected database write failures, forked crashes, free-running completion threads, or a delegate that resolves cycles"]
 
 
